@@ -70,7 +70,10 @@ def eval_pattern(cfg, s, depth=0):
                 return ("err",)
         elif fn == "envInt":
             if argv and argv[0] in ENVV:
-                vals.append(int(ENVV[argv[0]]))
+                try:
+                    vals.append(int(ENVV[argv[0]]))
+                except ValueError:
+                    return ("err",)
             elif len(argv) > 1:
                 vals.append(argv[1])
             else:
